@@ -36,6 +36,18 @@ for n in (1, 2, 3):
                               ('stable-phase-has-the-lowest-energy',
                                'all(result[0][result[1][j]][j] <= result[0][i][j] for j in range(%d) for i in range(%d))' % (m, n))],
                      cross_check=False)
+# a temperature scan: each column is converted with its own temperature
+for n in (1, 2):
+    for m in (2, 3):
+        contract(PD + '.get_GoRT_1D', P, label='T-scan,n_rxn=%d,n_x=%d,units=eV' % (n, m),
+                 args=dict(self=diagram(n), x_name=Const('T'), x_values=RealList(m, 300., 1500.), G_units=Const('eV'), P=Real(0.01, 10.)),
+                 requires=NORM + ['all(t > 0 for t in x_values)'],
+                 ensures=[('table-entries',
+                           "all(result[0][i][j] == self.reactions[i].get_delta_GoRT(T=x_values[j], P=P)"
+                           " / self.norm_factors[i] * const.R('eV/K') * x_values[j] for i in range(%d) for j in range(%d))" % (n, m)),
+                          ('stable-phase-has-the-lowest-energy',
+                           'all(result[0][result[1][j]][j] <= result[0][i][j] for j in range(%d) for i in range(%d))' % (m, n))],
+                 cross_check=False)
 for n in (1, 2, 3):
     for (m1, m2) in ((1, 1), (2, 2), (2, 3)):
         if n == 3 and (m1, m2) == (2, 3):
@@ -71,4 +83,17 @@ for flags in ((False,), (True,), (True, False), (True, True), (False, True, True
     contract(RS + '.get_E_span', P, label='steps=%s' % ''.join('T' if f else '-' for f in flags),
              args=dict(self=seq(flags), units=Const('eV'), T=T), requires=['T > 0'],
              ensures=[('span', 'result == spec.rxn.energy_span(spec.rxn.state_energies(self, "eV", T))')],
+             cross_check=False)
+# 2-D scans in energy units: each grid point is converted with its own temperature
+for (tname, label) in (('x1', 'T-on-axis-1'), ('x2', 'T-on-axis-2')):
+    a1 = dict(x1_name=Const('T'), x1_values=RealList(2, 300., 1500.), x2_name=Const('P'), x2_values=RealList(2, 0.01, 10.)) \
+        if tname == 'x1' else \
+        dict(x1_name=Const('P'), x1_values=RealList(2, 0.01, 10.), x2_name=Const('T'), x2_values=RealList(2, 300., 1500.))
+    call = 'T=x1_values[j], P=x2_values[k]' if tname == 'x1' else 'P=x1_values[j], T=x2_values[k]'
+    Tjk = 'x1_values[j]' if tname == 'x1' else 'x2_values[k]'
+    contract(PD + '.get_GoRT_2D', P, label='units=eV,' + label, args=dict(self=diagram(2), G_units=Const('eV'), **a1),
+             requires=NORM + ['all(t > 0 for t in %s_values)' % tname],
+             ensures=[('table-entries',
+                       "all(result[0][i][j][k] == self.reactions[i].get_delta_GoRT(%s) / self.norm_factors[i]"
+                       " * const.R('eV/K') * %s for i in range(2) for j in range(2) for k in range(2))" % (call, Tjk))],
              cross_check=False)
